@@ -3,7 +3,7 @@
  (r) reproducibility: the same command line, run 4 times in fresh processes (fresh hash seeds), produces byte-identical
      stdout, stderr (JSON diagnostics), exit status, and byte-identical input for every generator (request AND arguments);
  (s) source / reference assignment: for a program whose files each carry lints, every assignment of the files to sources and
-     `-R` references (at least one source), in two file orders, gives the same verdict and the same multiset of diagnostics
+     `-R` references (including the one with no source at all), in two file orders, gives the same verdict and the same multiset of diagnostics
      (code, severity, message, file:row:col); only the split of the request changes;
  (o) file order on the command line: the multiset of diagnostics and the per-file content of the request (each encoded file as a
      byte string, sources and references taken together) do not depend on the order of the source files.
@@ -111,7 +111,7 @@ def run(ctx):
                 # (s) every source / reference assignment, two orders
                 assigns = []
                 for order in (names, names[::-1]):
-                    for mask in range(1, 2 ** len(order)):
+                    for mask in list(range(1, 2 ** len(order))) + [0]:  # 0: every file a reference
                         src = [n for i, n in enumerate(order) if mask >> i & 1]
                         ref = [n for i, n in enumerate(order) if not mask >> i & 1]
                         assigns.append((src, ref))
